@@ -73,6 +73,10 @@ class CallMixin:
         if isinstance(t, MapT):
             ks = U if t.key == 'U' else z3.IntSort()
             present = z3.Array(fresh_name(name + '_present'), ks, z3.BoolSort())
+            if isinstance(t.val, RecordT):
+                vals = {fn: z3.Array(fresh_name(f'{name}_{fn}'), ks, z3.RealSort() if ft is Real else z3.IntSort())
+                        for fn, ft in t.val.fields.items()}
+                return st.alloc(HObj('smap', meta={'present': present, 'vals': vals, 'default_int': False, 'key': t.key, 'val_t': t.val}))
             if t.val is Int:
                 vs = z3.IntSort()
             elif isinstance(t.val, ListOfT):
@@ -202,6 +206,11 @@ class CallMixin:
                 return [ok(v.attrs[attr], st)]
             if attr == 'args':
                 return [ok(tuple(v.args), st)]
+            if ':' in v.cls:
+                # attribute of an in-package exception raised by an external: unknown value
+                val = Opaque(fresh_name(f'{attr}_of_exc'), kind='excattr')
+                v.attrs[attr] = val
+                return [ok(val, st)]
             raise EngineError(f'exception attribute {attr}')
         if isinstance(v, (str, FStr, bytes, BytesV, tuple, int, float)) or is_sym(v):
             return [ok(ExtMethod(v, attr), st)]
@@ -282,6 +291,8 @@ class CallMixin:
             return k.term
         if is_sym(k) and k.sort() == U:
             return k
+        if isinstance(k, Ref):
+            return z3.Const(f'ref!{k.oid}', U)
         raise EngineError(f'map key {k!r}')
 
     def smap_contains(self, h, k, st):
@@ -353,6 +364,8 @@ class CallMixin:
         return out
 
     def smap_value(self, ref, h, kt):
+        if isinstance(h.meta['val_t'], RecordT):
+            return ('record', {fn: z3.Select(a, kt) for fn, a in h.meta['vals'].items()})
         if isinstance(h.meta['val_t'], ListOfT):
             return ('mapslot', ref, kt)
         v = z3.Select(h.meta['vals'], kt)
@@ -372,6 +385,14 @@ class CallMixin:
                     return [(NORMAL, st)]
             if h.kind == 'smap':
                 kt = self.key_term(k, h)
+                if isinstance(h.meta['val_t'], RecordT):
+                    if not (isinstance(v, Ref) and st.obj(v).kind == 'dict' and set(st.obj(v).items) == set(h.meta['vals'])):
+                        raise EngineError('record map: value is not a dict with the declared fields')
+                    items = st.obj(v).items
+                    h.meta['vals'] = {fn: z3.Store(a, kt, to_real(items[fn]) if a.range() == z3.RealSort() else to_int_term(items[fn]))
+                                      for fn, a in h.meta['vals'].items()}
+                    h.meta['present'] = z3.Store(h.meta['present'], kt, True)
+                    return [(NORMAL, st)]
                 if isinstance(h.meta['val_t'], ListOfT):
                     v = self.seq_of(v, st)
                 elif isinstance(v, Opaque):
